@@ -96,12 +96,15 @@ def make_serializable(x):
     if isinstance(x, floating):
         return float(x)
     elif isinstance(x, slice):
-        dat = [_None_to_str(v) for v in (x.start, x.stop, x.step)]
+        dat = [make_serializable(v) for v in (x.start, x.stop, x.step)]
         return {"type": "slice", "data": dat}
     elif isinstance(x, dict):
         return {"type": "dict", "data": {k: make_serializable(v) for k, v in x.items()}}
     elif isinstance(x, set):
         return {"type": "set", "data": [make_serializable(v) for v in x]}
+    elif isinstance(x, (list, tuple)):
+        # a new list, so that NumPy scalars inside are converted and no list is shared
+        return [make_serializable(v) for v in x]
     else:
         return _None_to_str(x)
 
@@ -137,12 +140,14 @@ def deserialize(serializable_x):
                 value = value.reshape(tuple(shape))
             return value
         elif data_type == "slice":
-            dat = [_str_to_None(v) for v in serializable_x["data"]]
+            dat = [deserialize(v) for v in serializable_x["data"]]
             return slice(*dat)
         elif data_type == "dict":
             return {k: deserialize(v) for k, v in serializable_x["data"].items()}
         elif data_type == "set":
             return {deserialize(v) for v in serializable_x["data"]}
+    elif isinstance(serializable_x, list):
+        return [deserialize(v) for v in serializable_x]
     else:
         return _str_to_None(serializable_x)
 
